@@ -7,6 +7,8 @@ import (
 	"time"
 
 	"go.etcd.io/etcd/client/v3/concurrency"
+
+	"github.com/megaease/easegress/pkg/option"
 )
 
 // ---------------------------------------------------------------------------
@@ -24,8 +26,18 @@ var (
 	vKey       sync.Mutex // the key in etcd
 )
 
+var vMemberOfSession = map[*concurrency.Session]int{}
+
+func vMemberOf(em *concurrency.Mutex) int {
+	if id, ok := vSessionOf[em]; ok {
+		return id
+	}
+	// a mutex made by the real concurrency.NewMutex: it belongs to its session
+	return vMemberOfSession[verifGetField(em, "s").(*concurrency.Session)]
+}
+
 func vEtcdLock(em *concurrency.Mutex, ctx context.Context) error {
-	me := vSessionOf[em]
+	me := vMemberOf(em)
 	if verifBool("etcdLockFails") {
 		return errors.New("etcd: lock failed / timed out")
 	}
@@ -86,5 +98,47 @@ func verifC18_Mutex() {
 	wg.Wait() // a failed acquisition must leave the mutex free: nobody is stuck
 	if entered >= 2 {
 		verifCover("two-holders-in-sequence")
+	}
+}
+
+// verifC18_MutexFromCluster: the mutexes are obtained the way the admin API obtains them, from
+// the REAL cluster.Mutex(name) of each member (session cached in the cluster object, real
+// concurrency.NewMutex): a primary member whose initial-cluster lists one peer and a secondary
+// member that joined it. At most one holder across both members.
+func verifC18_MutexFromCluster() {
+	vHolder = 0
+	s1, s2 := &concurrency.Session{}, &concurrency.Session{}
+	vMemberOfSession[s1], vMemberOfSession[s2] = 1, 2
+	o1 := &option.Options{ClusterRole: "primary"}
+	o1.Cluster.InitialCluster = map[string]string{"m1": "http://10.0.0.1:2380"}
+	o2 := &option.Options{ClusterRole: "secondary"}
+	o2.Cluster.PrimaryListenPeerURLs = []string{"http://10.0.0.1:2380"}
+	c1 := &cluster{opt: o1, requestTimeout: time.Second, session: s1}
+	c2 := &cluster{opt: o2, requestTimeout: time.Second, session: s2}
+	m1, err1 := c1.Mutex("/config/lock")
+	m2, err2 := c2.Mutex("/config/lock")
+	verifAssert(err1 == nil && err2 == nil && m1 != nil && m2 != nil, "mutexes-created")
+	inCritical := 0
+	entered := 0
+	var wg sync.WaitGroup
+	worker := func(m Mutex) {
+		defer wg.Done()
+		if err := m.Lock(); err != nil {
+			return
+		}
+		inCritical++
+		entered++
+		verifAssert(inCritical == 1, "at-most-one-holder-across-members")
+		verifYield()
+		verifAssert(inCritical == 1, "at-most-one-holder-across-members")
+		inCritical--
+		m.Unlock()
+	}
+	wg.Add(2)
+	go worker(m1)
+	go worker(m2)
+	wg.Wait()
+	if entered == 2 {
+		verifCover("both-members-held-the-lock-in-turn")
 	}
 }
